@@ -7,6 +7,9 @@ export CARGO_TARGET_DIR=$wt/target CARGO_NET_OFFLINE=true
 exec >"$log" 2>&1
 cd $wt || exit 2
 git checkout -q -- . ; git clean -fdq -e target -e SEED >/dev/null 2>&1
+# always verify against /repo's current HEAD (the worktree may predate later fix: commits)
+git checkout -q --detach "$(git -C /repo rev-parse HEAD)" || exit 2
+echo "base commit: $(git rev-parse --short HEAD)"
 git apply $d/patch.diff || { echo "RESULT apply=FAIL"; exit 1; }
 crates=$(git diff --name-only | cut -d/ -f1 | sort -u | tr '\n' ' ')
 echo "touched crates: $crates"
